@@ -356,6 +356,32 @@ func c08MapOrder(c *Ctx) {
 		n++
 		cons := ml.Kind + " in " + c.P.FuncKey(ml.Fn)
 		if ml.Loop == nil {
+			// materialised keys: fine when they are sorted before use
+			sorted := false
+			instrs(ml.Fn, func(bk *ssa.BasicBlock, i int, in ssa.Instruction) {
+				call, isC := in.(*ssa.Call)
+				if !isC || len(call.Call.Args) == 0 {
+					return
+				}
+				cal := calleeOf(call)
+				if cal == nil {
+					return
+				}
+				switch cal.String() {
+				case "sort.Slice", "sort.SliceStable", "sort.Sort", "sort.Stable", "slices.SortFunc", "slices.SortStableFunc":
+				default:
+					return
+				}
+				for _, rt := range plainOrigins.Roots(call.Call.Args[0]) {
+					if rt.Kind == "call" && rt.V == ml.In.(ssa.Value) {
+						sorted = true
+					}
+				}
+			})
+			if sorted {
+				c.R.Add(rule, cons, c.P.InstrPos(ml.In), OK, "")
+				continue
+			}
 			c.R.Add(rule, cons, c.P.InstrPos(ml.In), Violation, "map keys are materialised in iteration order; unless sorted, that order reaches the result")
 			continue
 		}
